@@ -304,6 +304,19 @@ case("module-level numbers computed from literals are the numbers; literal tests
      "m", "f", has=["self.g(a, b)", "self.g(a, 0)", "self.g(0, b)", "self.g(0, 0)"], lacks=["ZS", " if "+"z"])
 case("module-level number kept as a name: it is re-bound in a function", {"m": "Z0 = 1\ndef h():\n    global Z0\n    Z0 = 5\ndef f(a):\n    return a & Z0\n"}, "m", "f", has=["a & Z0"])
 
+case("getattr / setattr with a literal name are attribute access", {"m": "def f(o, v):\n    setattr(o, 'a', getattr(o, 'b') + v)\n    return o\n"}, "m", "f", has=["o.a = o.b + v"])
+case("getattr with a default is kept", {"m": "def f(o, v):\n    return getattr(o, 'b', v)\n"}, "m", "f", has=["getattr("])
+
+case("copy back: temporaries bound by an unpacking and copied into variables are those variables",
+     {"h": "class K(object):\n    def __init__(self, a, b):\n        self.a = a\n        self.b = b\n",
+      "m": "from .h import K\nclass A(object):\n    def _h(self, r):\n        x = r()\n        for i in range(3):\n            x = r(x)\n        return (x, i)\n    def f(self, r, g):\n        p = K(*self._h(r))\n        g(p.a == 3)\n        return p.b\n"},
+     "m", "f", lacks=["_st1", "K("])
+
+case("derived flag: always recomputed after its operand is bound, so its reads are the expression", {"m": "def f(r, g):\n    c, a = r()\n    t = a == 7\n    while g(c):\n        if not t:\n            raise ValueError(a)\n        c, a = r()\n        t = a == 7\n    return c\n"},
+     "m", "f", has=["a != 7"], lacks=["t ="])
+case("derived flag kept: one binding of the operand is not followed by the recomputation", {"m": "def f(r, g):\n    c, a = r()\n    t = a == 7\n    while g(c):\n        if not t:\n            raise ValueError(a)\n        c, a = r()\n    return c\n"},
+     "m", "f", has=["t = a == 7"])
+
 
 def main():
     bad = 0
